@@ -87,6 +87,11 @@ class Polytope:
         self.n_faces = self._initialize_from_simplex(simplex)
 
     def _initialize_from_simplex(self, simplex):
+        # GJK returns the simplex in arbitrary orientation. The normals of the
+        # faces ABC, ACD, ADB and BDC point outwards only if D lies behind ABC.
+        if np.dot(np.cross(simplex[1] - simplex[0], simplex[2] - simplex[0]),
+                  simplex[3] - simplex[0]) > 0.0:
+            simplex = simplex[np.array((0, 2, 1, 3), dtype=int)]
         self.faces[0, :3] = simplex[:3]  # ABC
         self.faces[1, :3] = simplex[np.array((0, 2, 3), dtype=int)]  # ACD
         self.faces[2, :3] = simplex[np.array((0, 3, 1), dtype=int)]  # ADB
@@ -140,7 +145,7 @@ class Polytope:
         """Correct wrong normal direction to maintain CCW winding."""
         # Use bias in case dot result is only slightly < 0 (because origin is on face)
         if np.dot(self.faces[face_idx, 0], self.faces[face_idx, 3]) + bias < 0.0:
-            temp = self.faces[face_idx, 0]
+            temp = np.copy(self.faces[face_idx, 0])
             self.faces[face_idx, 0] = self.faces[face_idx, 1]
             self.faces[face_idx, 1] = temp
             self.faces[face_idx, 3] = -self.faces[face_idx, 3]
